@@ -52,6 +52,10 @@ def judge(case):
     case_classes(case, v)
     srcs = to_build_sources(case)
     refs = [Ref(s["svg"], cfg) for s in srcs]
+    if max([rf.max_coord() for rf in refs] + [0.0]) > c01.DOMAIN_COORD:
+        # outside what OpenType outlines can express at all (glyf stores int16 *deltas*: an extent > 32767 cannot be encoded)
+        v.discard = "reference geometry beyond %d font units" % c01.DOMAIN_COORD
+        return v
     r = build.build_font(cfg, srcs)
     if r.error is not None:
         c01.judge_rejection(v, r, refs, cfg)
